@@ -152,7 +152,7 @@ def check_connectives(ctx, target: str, rule: str) -> None:
     m = ci.methods["transform_implication"]
     ante = cons = None
     for n in ast.walk(m.node):
-        if isinstance(n, ast.Assign) and isinstance(n.value, ast.Call) and dotted_of(n.value.func) == "self.transform" and n.value.args:
+        if isinstance(n, ast.Assign) and isinstance(n.value, ast.Call) and (dotted_of(n.value.func) or "").startswith("self.") and n.value.args:
             tgt = n.targets[0]
             name0 = tgt.elts[0].id if isinstance(tgt, ast.Tuple) and isinstance(tgt.elts[0], ast.Name) else (tgt.id if isinstance(tgt, ast.Name) else None)
             if dotted_of(n.value.args[0]) == "node.antecedent":
